@@ -369,7 +369,20 @@ fn multi_context(cfg: &Cfg, rep: &mut Report) {
             ctxs.push_back(Context::Contract(ContractContext { contract: su.c.clone(), fn_name: Symbol::new(e, "update_delay"), args: a }));
         }
         su.w.set_ledger(su.w.ledger() + 5);
-        let nmeta = rng.idx(nctx + 2); // 0 ..= nctx+1 descriptors
+        // one time in five the controller is also asked to authorize something that is no contract call at
+        // all (a contract deployment in its name): never to be authorized, whatever the descriptors say
+        let with_deploy = rng.chance(1, 5);
+        if with_deploy {
+            use soroban_sdk::auth::{ContractExecutable, CreateContractHostFnContext};
+            let dc = Context::CreateContractHostFn(CreateContractHostFnContext { executable: ContractExecutable::Wasm(BytesN::from_array(e, &[7u8; 32])), salt: BytesN::from_array(e, &[8u8; 32]) });
+            if rng.chance(1, 2) {
+                ctxs.push_back(dc);
+            } else {
+                ctxs.push_front(dc);
+            }
+        }
+        let nctx_all = nctx + with_deploy as usize;
+        let nmeta = rng.idx(nctx_all + 2); // 0 ..= all contexts + 1 descriptors
         // descriptors in the order of the contexts, or (one time in three) rotated by one: every
         // context then meets the descriptor of another operation
         let permuted = nctx >= 2 && nmeta >= 2 && rng.chance(1, 3);
@@ -389,6 +402,12 @@ fn multi_context(cfg: &Cfg, rep: &mut Report) {
             rep.check("bypass", before.iter().all(|s| *s == 2) && after.iter().all(|s| *s == 3), "C09/bypass/__check_auth/accepted-without-consuming-every-operation", || format!("__check_auth accepted {nctx} contexts; operation states {before:?} -> {after:?} (2 ready, 3 done)"));
         } else {
             rep.check("res", before == after, "C09/res/__check_auth/refusal-changed-operation-state", || format!("__check_auth refused; operation states {before:?} -> {after:?}"));
+        }
+        if with_deploy {
+            rep.case(format!("check_auth/with-deployment-context/ctx={nctx}/meta={nmeta}/{}", r.is_ok()));
+            rep.check("bypass", r.is_err(), "C09/bypass/__check_auth/authorized-a-contract-deployment", || format!("__check_auth accepted {nctx} controller calls plus a contract deployment in the controller's name, with {nmeta} descriptors"));
+            rep.end_history();
+            continue;
         }
         let all_covered = nmeta >= nctx && ready.iter().all(|r| *r) && !permuted;
         rep.op(format!("__check_auth contexts={nctx} ready={ready:?} descriptors={nmeta} -> {}", if r.is_ok() { "ok" } else { "err" }));
